@@ -490,7 +490,7 @@ class Specifier(BaseSpecifier):
         # Ensure that we do not allow a local version of the version mentioned
         # in the specifier, which is technically greater than, to match.
         if prospective.local is not None:
-            if Version(prospective.base_version) == Version(spec.base_version):
+            if Version(prospective.public) == spec:
                 return False
 
         # If we've gotten to here, it means that prospective version is both
